@@ -132,4 +132,14 @@ CLAIMED["C12"] = {"text": "Coq theorems: for every sequence of broker events the
                  "(/i+/o in both orders, /io; preceded by half-attached and refused attempts; traffic after the close; Do must return ErrOneShellClosed by itself).",
          "note": TB + "net.Listener.Close / http.Server.Shutdown semantics are net/http's; real-time polling (up to 3 s) for 'refused'.",
          "technique": "Coq proof (watcher logic composed with the broker invariants) + real-socket scenario test judged by vm_compute"}
+CLAIMED["C13"] = {"text": "Coq theorems: with a fingerprint configured a request is sent IFF it decodes (base64, CR/LF ignored, optional sha256//) to exactly 32 "
+                 "bytes and SOME presented certificate's SubjectPublicKeyInfo has that SHA-256 (full equality, any chain position); malformed => refused "
+                 "outright; the pin a listener advertises parses to its key's hash (SHA-256 output length/byte range proved through the Gallina "
+                 "implementation, base64 round trip); without a fingerprint ordinary validation decides; the decision is a function of the call's own "
+                 "arguments (no state). Tie: 120 calls per quick run in ONE process against 8 TLS servers with generated keys and 1-3 certificate "
+                 "chains, 14 fingerprint spellings, trusted and untrusted leaves; Coq recomputes SHA-256/base64 of the presented keys and predicts "
+                 "whether the handler may run; http.DefaultClient/DefaultTransport compared with their initial state after every call. PARTIAL for the "
+                 "TLS mechanics (handshake, VerifyConnection ordering): environment.",
+         "note": TB + "crypto/tls handshake and x509 validation are the library's; SHA-256 collision resistance assumed.",
+         "technique": "Coq proof (iff characterisation, codec round trips, hash output shape) + differential correspondence with in-Coq hashing judged by vm_compute"}
 NOT_CLAIMED = {}
